@@ -994,15 +994,23 @@ class Job:
         state = dict(self.__dict__)
         # Locks are not pickleable and must be removed from the state
         del state["_lock"]
+        # The state point and document objects (and the HDF5 stores) are bound
+        # to this process: their file locks are registered when they are
+        # constructed, and the state point object refers back to all shallow
+        # copies of this job. They are therefore not pickled, but re-created
+        # lazily from the cached state point by the unpickled job.
+        if not state.get("_statepoint_requires_init", True):
+            state["_cached_statepoint"] = self._statepoint()
+            state["_statepoint_requires_init"] = True
+        state.pop("_statepoint", None)
+        state["_document"] = None
+        state["_stores"] = None
         return state
 
     def __setstate__(self, state):
         # Locks are not pickleable and must be added back to the state
         state["_lock"] = RLock()
         self.__dict__.update(state)
-        # We append to a list of jobs rather than replacing to support
-        # transparent id updates between shallow copies of a job.
-        self.statepoint._jobs.append(self)
 
     def __copy__(self):
         # Shallow copies refer to the same data on disk and share the state point
@@ -1012,7 +1020,11 @@ class Job:
         self.statepoint
         cls = self.__class__
         result = cls.__new__(cls)
-        result.__setstate__(self.__getstate__())
+        result.__dict__.update(self.__dict__)
+        result._lock = RLock()
+        # We append to a list of jobs rather than replacing to support
+        # transparent id updates between shallow copies of a job.
+        self._statepoint._jobs.append(result)
         return result
 
     def __deepcopy__(self, memo):
